@@ -71,7 +71,22 @@ fn main() {
     for (i, job) in jobs.iter().enumerate() {
         tw.flush();
         let before = heap::now();
-        let dom = common::Domain::new(&work, &format!("{pid}x{i}"));
+        // short tag (base 36): the unix datagram socket of an ipc listener lives under this root and its path is
+        // limited to 108 bytes
+        let b36 = |mut n: u64| -> String {
+            let d = b"0123456789abcdefghijklmnopqrstuvwxyz";
+            let mut v = vec![];
+            loop {
+                v.push(d[(n % 36) as usize]);
+                n /= 36;
+                if n == 0 {
+                    break;
+                }
+            }
+            v.reverse();
+            String::from_utf8(v).unwrap()
+        };
+        let dom = common::Domain::new(&work, &format!("{}x{}", b36(pid as u64), b36(i as u64)));
         let name = format!("vf/run/{i}");
         let local = job["cfg"]["variant"].as_str() == Some("local") || job["cfg"]["svc"].as_str() == Some("local");
         match job["pat"].as_str().unwrap_or("ps") {
